@@ -1,7 +1,8 @@
 """Registry: which Coq files, generators and correspondence streams decide which property."""
 
 GENERATORS = [
-    ("facts", "Generated/Facts.v"),
+    ("facts", "Generated/Facts.v", "*"),
+    ("lockprog", "Generated/LockProgs.v", ["C15"]),
 ]
 
 TRUSTED_BASE = [
@@ -70,5 +71,67 @@ PROPS = {
                 "non-trivial = all header cases (base64 cases: decodes to non-empty); distinct = distinct Coq case term",
         "assumptions": ["headers are ASCII: Go's Unicode TrimSpace/EqualFold on non-ASCII input is outside the model (guard stated in the theorems' domain: str = list of bytes < 128 is what the generator emits)",
                         "encoding/base64 is modelled (Model/Base64.v) and compared directly on ~300/8000 strings per run"],
+    },
+    "C15": {
+        "obligation_files": ["Properties/C15.v"],
+        "model_files": ["Model/RWLock.v", "Generated/LockProgs.v"],
+        "corr": False,
+        "custom": "c15",
+        "trusted_extra": ["translator harness/cmd/lockprog (go/ast: Bundle methods -> lock programs; syntactic read/write classification of token-list accesses; callbacks assumed terminating and non-reentrant)",
+                          "Go sync.RWMutex modelled as writer-preferring (RLock blocks behind a pending Lock)"],
+        "rule": "T-mode: every control-flow path (loops unrolled 0/1/2 times, callees inlined, deferred releases at return) of every Bundle method and generic helper is translated from /repo/bundle on every run and checked flat inside Coq "
+                "(lockprogs_flat); evaluations = translated paths; non-trivial = distinct non-empty paths; support: goroutine stress of every pair of operations (incl. on a Select-ed bundle sharing the lock) with a deadlock watchdog "
+                "(and the race detector in the thorough tier / when the obligation breaks)",
+        "assumptions": ["race freedom is at the model's granularity (accesses to the token list and in-place token updates under the Bundle lock); token objects reached through returned Macaroon values are documented as unsafe by the library and not claimed",
+                        "user callbacks (predicates, ForEach/Map/Reduce functions, Discharger) are assumed terminating and not to call back into the same bundle"],
+    },
+    "C01": {
+        "obligation_files": ["Properties/C01.v"],
+        "model_files": ['Model/Sym.v', 'Model/Ops.v', 'Corr/Transport.v', 'Corr/RunS.v'],
+        "rule": "stream sym-forge (scenario language of coq/Model/Ops.v interpreted on the real library with real HMAC/SHA-256/ChaCha20-Poly1305 and symbolically in Coq): honest family (root token under the issuer key, 1-3 attenuation steps, optional third-party caveat and discharges, both nonce versions, proof/non-proof) + an independently minted sibling; the attacker holds a strict subset (never the root) and applies 1-3 surgery steps from 16 kinds (drop/swap/insert/append caveats without re-MAC, tails set to held tails / chains continued from held tails / finalised / hashed / truncated / literal / own-key chains, nonce kid/rnd/proof/version changes, location change, truncation + held tail, legitimate extension) before Verify; implementation-side oracle: an accepted token's nonce and caveat encodings must extend a held token; plus 3000 (quick) / 100000 (thorough) random bit/byte mutations of held wire tokens under the same oracle; observable per Verify = accept/reject, returned caveat identities in order, reachable attestations; every scenario is non-trivial (contains at least one Verify); distinct = distinct scenario term",
+        "assumptions": ["symbolic cryptography: HMAC-SHA256, SHA-256, its 16-byte prefix and ChaCha20-Poly1305 are free injective non-invertible constructors, random values are fresh atoms, the attacker is the Dolev-Yao closure; computational soundness and collision probabilities are outside the theorems",
+                        "data caveats are abstract in this layer (identity = canonical encoding, attestation flag, wraps-attestation flag); the Go side maps real caveats to identities through their canonical encoding"],
+    },
+    "C02": {
+        "obligation_files": ["Properties/C02.v"],
+        "model_files": ['Model/Sym.v', 'Model/Ops.v', 'Corr/Transport.v', 'Corr/RunS.v'],
+        "rule": "stream sym-atten (scenario language of coq/Model/Ops.v interpreted on the real library with real HMAC/SHA-256/ChaCha20-Poly1305 and symbolically in Coq): chains of 1-3 attenuation steps from the encoded token (clone, add 1-2 data caveats incl. exact duplicates and near-duplicates, sometimes a third-party caveat), re-adding identical caveats (token must be byte-identical: OSameWire), verify child and parent with the same discharges; oracle: child accepted => parent accepted and the parent's returned caveats are a sub-multiset of the child's; observable per Verify = accept/reject, returned caveat identities in order, reachable attestations; every scenario is non-trivial (contains at least one Verify); distinct = distinct scenario term",
+        "assumptions": ["symbolic cryptography: HMAC-SHA256, SHA-256, its 16-byte prefix and ChaCha20-Poly1305 are free injective non-invertible constructors, random values are fresh atoms, the attacker is the Dolev-Yao closure; computational soundness and collision probabilities are outside the theorems",
+                        "data caveats are abstract in this layer (identity = canonical encoding, attestation flag, wraps-attestation flag); the Go side maps real caveats to identities through their canonical encoding"],
+    },
+    "C04": {
+        "obligation_files": ["Properties/C04.v"],
+        "model_files": ['Model/Sym.v', 'Model/Ops.v', 'Corr/Transport.v', 'Corr/RunS.v'],
+        "rule": "stream sym-3p (scenario language of coq/Model/Ops.v interpreted on the real library with real HMAC/SHA-256/ChaCha20-Poly1305 and symbolically in Coq): tokens with 1-2 third-party caveats at random positions; presented discharge multisets drawn from {genuine, for another token's ticket, re-keyed (right ticket, wrong secret), tampered, nested (itself demanding a discharge), extended, duplicate}, wrong third-party key at DischargeTicket, verifier-key/ticket splices between tokens; four presentation orders each; observable per Verify = accept/reject, returned caveat identities in order, reachable attestations; every scenario is non-trivial (contains at least one Verify); distinct = distinct scenario term",
+        "assumptions": ["symbolic cryptography: HMAC-SHA256, SHA-256, its 16-byte prefix and ChaCha20-Poly1305 are free injective non-invertible constructors, random values are fresh atoms, the attacker is the Dolev-Yao closure; computational soundness and collision probabilities are outside the theorems",
+                        "data caveats are abstract in this layer (identity = canonical encoding, attestation flag, wraps-attestation flag); the Go side maps real caveats to identities through their canonical encoding"],
+    },
+    "C05": {
+        "obligation_files": ["Properties/C05.v"],
+        "model_files": ['Model/Sym.v', 'Model/Ops.v', 'Corr/Transport.v', 'Corr/RunS.v'],
+        "rule": "stream sym-honest (scenario language of coq/Model/Ops.v interpreted on the real library with real HMAC/SHA-256/ChaCha20-Poly1305 and symbolically in Coq): random honest histories: mint (v0/v1 nonce, occasionally a proof root), 0-3 clone+add steps by different holders, 0-2 third-party caveats, discharges (proof / non-proof, with caveats and attestations, optionally bound to a chain member), verification direct and through the wire, by a clone, without trusted keys and under a wrong key; oracle: the honest presentation is accepted and a clone verifies identically; observable per Verify = accept/reject, returned caveat identities in order, reachable attestations; every scenario is non-trivial (contains at least one Verify); distinct = distinct scenario term",
+        "assumptions": ["symbolic cryptography: HMAC-SHA256, SHA-256, its 16-byte prefix and ChaCha20-Poly1305 are free injective non-invertible constructors, random values are fresh atoms, the attacker is the Dolev-Yao closure; computational soundness and collision probabilities are outside the theorems",
+                        "data caveats are abstract in this layer (identity = canonical encoding, attestation flag, wraps-attestation flag); the Go side maps real caveats to identities through their canonical encoding"],
+    },
+    "C06": {
+        "obligation_files": ["Properties/C06.v"],
+        "model_files": ['Model/Sym.v', 'Model/Ops.v', 'Corr/Transport.v', 'Corr/RunS.v'],
+        "rule": "stream sym-bind (scenario language of coq/Model/Ops.v interpreted on the real library with real HMAC/SHA-256/ChaCha20-Poly1305 and symbolically in Coq): attenuation trees (2-7 nodes) over a token with a third-party caveat; a non-proof discharge bound to 1-2 nodes (or an unrelated token) presented with every node; oracle: accepted iff the presented node is a descendant-or-self of every bound node; a permission token carrying a binding is rejected; observable per Verify = accept/reject, returned caveat identities in order, reachable attestations; every scenario is non-trivial (contains at least one Verify); distinct = distinct scenario term",
+        "assumptions": ["symbolic cryptography: HMAC-SHA256, SHA-256, its 16-byte prefix and ChaCha20-Poly1305 are free injective non-invertible constructors, random values are fresh atoms, the attacker is the Dolev-Yao closure; computational soundness and collision probabilities are outside the theorems",
+                        "data caveats are abstract in this layer (identity = canonical encoding, attestation flag, wraps-attestation flag); the Go side maps real caveats to identities through their canonical encoding"],
+    },
+    "C07": {
+        "obligation_files": ["Properties/C07.v"],
+        "model_files": ['Model/Sym.v', 'Model/Ops.v', 'Corr/Transport.v', 'Corr/RunS.v'],
+        "rule": "stream sym-att (scenario language of coq/Model/Ops.v interpreted on the real library with real HMAC/SHA-256/ChaCha20-Poly1305 and symbolically in Coq): nine assemblies (bearer-added or hand-appended attestations/wrappers, own third-party caveat under own key with spoofed location, copied trusted ticket with own verifier key and self-issued proof, non-proof discharge extended by hand, finalised proof extended by hand, own proof root, relocated genuine discharge) x trusted-key maps {absent, empty, wrong key, several keys, other location, right key}; observable includes the attestations reachable through GetCaveats (wrappers included); observable per Verify = accept/reject, returned caveat identities in order, reachable attestations; every scenario is non-trivial (contains at least one Verify); distinct = distinct scenario term",
+        "assumptions": ["symbolic cryptography: HMAC-SHA256, SHA-256, its 16-byte prefix and ChaCha20-Poly1305 are free injective non-invertible constructors, random values are fresh atoms, the attacker is the Dolev-Yao closure; computational soundness and collision probabilities are outside the theorems",
+                        "data caveats are abstract in this layer (identity = canonical encoding, attestation flag, wraps-attestation flag); the Go side maps real caveats to identities through their canonical encoding"],
+    },
+    "C08": {
+        "obligation_files": ["Properties/C08.v"],
+        "model_files": ['Model/Sym.v', 'Model/Ops.v', 'Corr/Transport.v', 'Corr/RunS.v'],
+        "rule": "stream sym-proof (scenario language of coq/Model/Ops.v interpreted on the real library with real HMAC/SHA-256/ChaCha20-Poly1305 and symbolically in Coq): random sequences (1-7 steps) of add / encode / clone / raw decode / verify (wire and direct) / same-wire comparison on a fresh proof discharge and its copies, and hand-built extensions from the published tail with 5 tail shapes; oracle: Add never succeeds after the first encode, no hand extension is accepted; observable per Verify = accept/reject, returned caveat identities in order, reachable attestations; every scenario is non-trivial (contains at least one Verify); distinct = distinct scenario term",
+        "assumptions": ["symbolic cryptography: HMAC-SHA256, SHA-256, its 16-byte prefix and ChaCha20-Poly1305 are free injective non-invertible constructors, random values are fresh atoms, the attacker is the Dolev-Yao closure; computational soundness and collision probabilities are outside the theorems",
+                        "data caveats are abstract in this layer (identity = canonical encoding, attestation flag, wraps-attestation flag); the Go side maps real caveats to identities through their canonical encoding"],
     },
 }
